@@ -346,10 +346,18 @@ class PropertyRun:
                                           % (name, e['message'], [s['line'] for s in e['spans']]))
                     continue
                 # the clause text: the span that is not inside the unit's repo text, or the primary one
+                # the failing clause: the span Verus labels "failed this postcondition / failed precondition / ...",
+                # otherwise the primary span
                 clause = None
                 for s in e['spans']:
-                    if s is not uline:
+                    if s.get('label') and 'failed' in s['label']:
                         clause = s
+                        break
+                if clause is None:
+                    for s in e['spans']:
+                        if s.get('primary'):
+                            clause = s
+                            break
                 ref = clause or uline
                 repo_line = self.repo_line_of(u, uline)
                 import hashlib
